@@ -224,6 +224,8 @@ def apply(obj, st, world, scribble=False):
     with world.step(st["pyseed"] ^ 0x1111, st["npseed"] ^ 0x2222, use_fs=False):
         if st["op"] == "set":
             out["value"], out["cur"] = resolve_arg(tgt, st)
+    # the harness's own reading of the current value may have gone through the solver
+    out["pre_attempts"] = list(world.solver.attempts)
     with world.step(st["pyseed"], st["npseed"], solver_script=st.get("solver_script"),
                     use_fs=False):
         try:
